@@ -136,9 +136,13 @@ OffFrame == [at |-> 0, pc |-> "off", tx |-> EmptyTx, list |-> <<>>, fl |-> <<>>,
              tc |-> <<>>, dirty |-> FALSE]
 Frame(n, pc, list) == [OffFrame EXCEPT !.at = n, !.pc = pc, !.list = list]
 Idle == [type |-> "idle", g |-> 0, opt |-> "plain", gw |-> OffFrame, rm |-> OffFrame,
-         peers |-> {}, fdone |-> FALSE, ret |-> <<>>, m0 |-> {}, stim |-> <<>>, rest |-> <<>>]
+         peers |-> {}, fdone |-> FALSE, ret |-> <<>>, m0 |-> {}, stim |-> <<>>, rest |-> <<>>,
+         np |-> 0,        \* number of peer groups of the request
+         amb |-> FALSE]   \* ghost: the outcome depends on an order the code does not fix
+                          \* (Go map iteration over the peers of a failing request, retrieval
+                          \* order of channels sharing a name); such behaviours are not replayed
 NoStim == [type |-> "none", g |-> 0, opt |-> "plain", ents |-> <<>>, cut |-> 0, st |-> "none", kind |-> ""]
-NoLast == [res |-> "none", why |-> "", ret |-> <<>>, n |-> 0]
+NoLast == [res |-> "none", why |-> "", ret |-> <<>>, n |-> 0, amb |-> FALSE]
 
 Init == /\ ctr = [l \in Lease |-> 0]
         /\ meta = EmptyF /\ engine = [n \in Node |-> EmptyF] /\ onto = {}
@@ -177,7 +181,7 @@ PickRest ==
 AddAnother == /\ stim.st = "more" /\ Len(stim.ents) - stim.cut < MaxBatch
               /\ stim' = [stim EXCEPT !.st = IF stim.type = "create" THEN "kind" ELSE "rest"] /\ StimUnch
 \* close the first CreateMany of the transaction and start a second one
-NextBatch == /\ Chain /\ stim.st = "more" /\ stim.type = "create" /\ stim.cut = 0
+NextBatch == /\ Chain /\ stim.st = "more" /\ stim.type = "create" /\ stim.cut = 0 /\ stim.opt = "plain"
              /\ stim' = [stim EXCEPT !.cut = Len(stim.ents), !.st = "kind"] /\ StimUnch
 FirstPc(t) == CASE t = "create" -> IF Dev_CalcIndexUnchecked THEN "v" ELSE "x"
                 [] t = "delete" -> "dr" [] t = "rename" -> "nv"
@@ -190,6 +194,8 @@ Submit == /\ stim.st = "more"
                                 !.gw = Frame(stim.g, FirstPc(stim.type), StartList(stim.type)),
                                 !.peers = IF stim.type = "create" THEN {}
                                           ELSE {StartList(stim.type)[i].key.l : i \in 1..Len(stim.ents)} \ {0, stim.g},
+                                !.np = IF stim.type = "create" THEN 0
+                                       ELSE Cardinality({StartList(stim.type)[i].key.l : i \in 1..Len(stim.ents)} \ {0, stim.g}),
                                 !.rest = IF stim.cut = 0 THEN <<>> ELSE SubSeq(stim.ents, stim.cut + 1, Len(stim.ents)),
                                 !.m0 = DOMAIN meta]
           /\ stim' = NoStim
@@ -204,11 +210,20 @@ Busy == rq.type # "idle"
 View(T) == T.put @@ Restr(meta, DOMAIN meta \ T.del)
 \* lookup by name on node `at` (channel.MatchNames -> name index)
 Hit(at, V, k, x) == V[k].name = x /\ ((at = Boot /\ k \in DOMAIN ixn) => ixn[k] = x)
+\* validateChannelNames keeps ONE existing channel per name (`nameConflicts[ch.Name] = i`,
+\* the last one retrieved) and compares its key with the request's key for that name
+LastKey(S) == CHOOSE k \in S : \A j \in S : ~KeyLT(k, j)
+Conflict(at, V, x, key) == LET S == {k \in DOMAIN V : Hit(at, V, k, x)}
+                           IN S # {} /\ LastKey(S) # key
+Unsure(at, V, x, key) == LET S == {k \in DOMAIN V : Hit(at, V, k, x)}
+                         IN key \in S /\ Cardinality(S) >= 2
+\* delete inside a transaction (also forgets rows the same transaction created)
+TxDel(T, S) == [T EXCEPT !.del = @ \cup S, !.put = Without(@, S)]
 ApplyTx(m, T) == T.put @@ Restr(m, DOMAIN m \ T.del)
 Dirty == rq.gw.dirty \/ rq.rm.dirty
 CanFail(d) == Window_EngineBeforeMeta \/ ~d
 \* the request ends in failure: every open transaction is abandoned
-Abort(why) == /\ last' = [res |-> "fail", why |-> why, ret |-> <<>>, n |-> 0]
+Abort(why) == /\ last' = [res |-> "fail", why |-> why, ret |-> <<>>, n |-> 0, amb |-> rq.amb \/ rq.np >= 2]
               /\ rq' = Idle /\ nreq' = nreq + 1
 Goto(pc) == rq' = SetA([A EXCEPT !.pc = pc])
 
@@ -252,8 +267,7 @@ CValidate ==
   /\ Busy /\ A.pc = "v"
   /\ LET L == A.list  V == View(A.tx)
          dup == \E i, j \in 1..Len(L) : i < j /\ L[i].name = L[j].name
-         conflict == rq.opt = "plain" /\ \E i \in 1..Len(L), k \in DOMAIN V :
-                                            Hit(A.at, V, k, L[i].name) /\ k # L[i].key
+         conflict == rq.opt = "plain" /\ \E i \in 1..Len(L) : Conflict(A.at, V, L[i].name, L[i].key)
      IN IF dup \/ conflict
         THEN CanFail(Dirty) /\ Abort("name") /\ UNCHANGED <<ctr, meta, engine, onto, everUsed, fresh, gone, ixn, keyOf, stim, nrestart>>
         ELSE Goto(AfterV) /\ UNCHANGED <<ctr, meta, engine, onto, everUsed, fresh, gone, ixn, keyOf, stim, last, nreq, nrestart>>
@@ -273,7 +287,8 @@ CSplit ==
                         !.ll = SelectSeq(L, LAMBDA e : e.lease = A.at),
                         !.pc = IF RmOn THEN "f1" ELSE "r"]
      IN rq' = IF RmOn THEN [rq EXCEPT !.rm = f]
-              ELSE [rq EXCEPT !.gw = f, !.peers = {L[i].lease : i \in 1..Len(L)} \ {0, rq.g}]
+              ELSE [rq EXCEPT !.gw = f, !.peers = {L[i].lease : i \in 1..Len(L)} \ {0, rq.g},
+                              !.np = Cardinality({L[i].lease : i \in 1..Len(L)} \ {0, rq.g})]
   /\ UNCHANGED <<ctr, meta, engine, onto, everUsed, fresh, gone, ixn, keyOf, stim, last, nreq, nrestart>>
 PickPeer(n) == n \in rq.peers /\ (AnyPeerOrder \/ \A m \in rq.peers : n <= m)
 CRoute ==
@@ -298,10 +313,12 @@ OvFold(V, L, del, ex) ==
        IN IF i = 0 THEN OvFold(V, L, del, Tail(ex))
           ELSE IF Same(L[i], V[k]) THEN OvFold(V, [L EXCEPT ![i] = Ent(k, V[k])], del, Tail(ex))
           ELSE OvFold(V, L, Append(del, k), Tail(ex))
+DupNames(V, S) == \E k1, k2 \in S : k1 # k2 /\ V[k1].name = V[k2].name
 Overwrite(L, T) ==
   LET V == View(T)
       ex == SortKeys({k \in DOMAIN V : \E i \in 1..Len(L) : Hit(A.at, V, k, L[i].name)})
-  IN OvFold(V, L, <<>>, ex)
+      dupL == \E i, j \in 1..Len(L) : i < j /\ L[i].name = L[j].name   \* (doubled auto index)
+  IN OvFold(V, L, <<>>, ex) @@ [amb |-> DupNames(V, Rng(ex)) \/ dupL]
 \* engine side of deleteOverwritten run on node `at`: [ok, eng] over all nodes
 OvEngine(at, del) ==
   LET tgt(n) == IF Dev_OverwriteLocalEngine THEN (IF n = at THEN del ELSE <<>>)
@@ -317,12 +334,13 @@ COverwrite(pc, which, next, skip) ==
      ELSE LET o == Overwrite(L, A.tx)
               r == OvEngine(A.at, o.del)
               changed == r.eng # engine
-              f == [A EXCEPT !.pc = next, !.tx.del = @ \cup Rng(o.del), !.dirty = @ \/ changed,
-                             !.tx.odel = @ \cup (IF Dev_OverwriteLocalEngine THEN {} ELSE Rng(o.del)),
+              f == [A EXCEPT !.pc = next, !.dirty = @ \/ changed,
+                             !.tx = [TxDel(@, Rng(o.del)) EXCEPT
+                                       !.odel = @ \cup (IF Dev_OverwriteLocalEngine THEN {} ELSE Rng(o.del))],
                              !.fl = IF which = "fl" THEN o.l ELSE @,
                              !.ll = IF which = "ll" THEN o.l ELSE @]
           IN /\ engine' = r.eng
-             /\ IF r.ok THEN rq' = SetA(f) /\ UNCHANGED <<last, nreq>>
+             /\ IF r.ok THEN rq' = [SetA(f) EXCEPT !.amb = @ \/ o.amb] /\ UNCHANGED <<last, nreq>>
                 ELSE CanFail(Dirty \/ changed) /\ Abort("engine-delete")
              /\ UNCHANGED <<ctr, meta, onto, everUsed, fresh, gone, ixn, keyOf, stim, nrestart>>
 CFreeOverwrite == COverwrite("f1", "fl", "f2", "l1")
@@ -341,7 +359,9 @@ Assign(L0, lc, T) ==
       names == [i \in 1..Len(L0) |-> L0[i].name]
       rf == IF rq.opt = "retrieve"
             THEN RetFold(V, names, L0, 0, SortKeys({k \in DOMAIN V : \E x \in Rng(names) : Hit(A.at, V, k, x)}))
-            ELSE [l |-> L0, dec |-> 0]
+                 @@ [amb |-> \/ DupNames(V, {k \in DOMAIN V : \E x \in Rng(names) : Hit(A.at, V, k, x)})
+                             \/ \E i, j \in 1..Len(names) : i < j /\ names[i] = names[j]]
+            ELSE [l |-> L0, dec |-> 0, amb |-> FALSE]
       L == rf.l
       inc == IF Len(L) >= rf.dec THEN Len(L) - rf.dec ELSE 0
       base == ctr[lc]
@@ -351,7 +371,7 @@ Assign(L0, lc, T) ==
                   ELSE LET k == K(lc, base + rank(i))
                        IN [L[i] EXCEPT !.key = k, !.idx = IF L[i].isidx THEN k ELSE @]]
       newpos == {i \in 1..Len(L) : L[i].key = NoKey}
-  IN [l |-> keyed, new |-> newpos, ctr |-> base + inc, keys |-> {keyed[i].key : i \in newpos}]
+  IN [l |-> keyed, new |-> newpos, ctr |-> base + inc, keys |-> {keyed[i].key : i \in newpos}, amb |-> rf.amb]
 \* calc -> index linking inside createAndUpdateFreeVirtual (new channels only)
 Link(L, newpos) ==
   [i \in 1..Len(L) |->
@@ -369,9 +389,9 @@ CAssign(pc, which, next) ==
      IN /\ ctr' = [ctr EXCEPT ![lc] = a.ctr]
         /\ everUsed' = everUsed \cup a.keys
         /\ fresh' = (fresh /\ a.keys \cap everUsed = {})
-        /\ rq' = SetA([A EXCEPT !.pc = next, !.tc = tc,
-                                !.fl = IF which = "fl" THEN L ELSE @,
-                                !.ll = IF which = "ll" THEN L ELSE @])
+        /\ rq' = [SetA([A EXCEPT !.pc = next, !.tc = tc,
+                                 !.fl = IF which = "fl" THEN L ELSE @,
+                                 !.ll = IF which = "ll" THEN L ELSE @]) EXCEPT !.amb = @ \/ a.amb]
   /\ UNCHANGED <<meta, engine, onto, gone, ixn, keyOf, stim, last, nreq, nrestart>>
 CFreeAssign == CAssign("f2", "fl", "f3")
 CLocalAssign == CAssign("l2", "ll", "l3")
@@ -416,10 +436,10 @@ DRoute ==
 Mine(f) == SelectSeq(f.list, LAMBDA e : e.key.l = f.at)
 Free(f) == SelectSeq(f.list, LAMBDA e : e.key.l = 0)
 DFree == /\ Busy /\ A.pc = "df"
-         /\ rq' = SetA([A EXCEPT !.pc = "dm", !.tx.del = @ \cup KeysOf(Free(A))])
+         /\ rq' = SetA([A EXCEPT !.pc = "dm", !.tx = TxDel(@, KeysOf(Free(A)))])
          /\ UNCHANGED <<ctr, meta, engine, onto, everUsed, fresh, gone, ixn, keyOf, stim, last, nreq, nrestart>>
 DMeta == /\ Busy /\ A.pc = "dm"
-         /\ rq' = SetA([A EXCEPT !.pc = "do", !.tx.del = @ \cup KeysOf(Mine(A))])
+         /\ rq' = SetA([A EXCEPT !.pc = "do", !.tx = TxDel(@, KeysOf(Mine(A)))])
          /\ UNCHANGED <<ctr, meta, engine, onto, everUsed, fresh, gone, ixn, keyOf, stim, last, nreq, nrestart>>
 DOnto == /\ Busy /\ A.pc \in {"do", "dO"}
          /\ rq' = SetA([A EXCEPT !.pc = IF A.pc = "do" THEN "de" ELSE "c",
@@ -440,10 +460,13 @@ NValidate ==
   /\ Busy /\ A.pc = "nv"
   /\ LET L == A.list  V == View(A.tx)
          dup == \E i, j \in 1..Len(L) : i < j /\ L[i].name = L[j].name
-         conflict == \E i \in 1..Len(L), k \in DOMAIN V : Hit(A.at, V, k, L[i].name) /\ k # L[i].key
+         conflict == \E i \in 1..Len(L) : Conflict(A.at, V, L[i].name, L[i].key)
+         unsure == \E i \in 1..Len(L) : Unsure(A.at, V, L[i].name, L[i].key)
      IN IF dup \/ conflict
-        THEN CanFail(Dirty) /\ Abort("name") /\ UNCHANGED <<ctr, meta, engine, onto, everUsed, fresh, gone, ixn, keyOf, stim, nrestart>>
-        ELSE Goto(IF RmOn THEN "nm" ELSE "nr") /\ UNCHANGED <<ctr, meta, engine, onto, everUsed, fresh, gone, ixn, keyOf, stim, last, nreq, nrestart>>
+        THEN /\ CanFail(Dirty) /\ Abort("name")
+             /\ UNCHANGED <<ctr, meta, engine, onto, everUsed, fresh, gone, ixn, keyOf, stim, nrestart>>
+        ELSE /\ rq' = [SetA([A EXCEPT !.pc = IF RmOn THEN "nm" ELSE "nr"]) EXCEPT !.amb = @ \/ unsure]
+             /\ UNCHANGED <<ctr, meta, engine, onto, everUsed, fresh, gone, ixn, keyOf, stim, last, nreq, nrestart>>
 \* table.NewUpdate().Where(MatchKeys(keys...)): all keys must exist
 NUpdate(pc, sel(_), next) ==
   /\ Busy /\ A.pc = pc
@@ -488,7 +511,7 @@ Commit ==
           /\ UNCHANGED <<gone, ixn, keyOf, last, nreq>>
      ELSE LET ret == rq.ret \o RetOf(rq.gw) IN
           /\ rq' = Idle
-          /\ last' = [res |-> "ok", why |-> "", ret |-> ret, n |-> 0]
+          /\ last' = [res |-> "ok", why |-> "", ret |-> ret, n |-> 0, amb |-> rq.amb]
           /\ nreq' = nreq + 1
           /\ gone' = gone \cup (rq.m0 \ DOMAIN meta')
           /\ ixn' = LET fr == IF rq.type = "rename" THEN KeysOf(Free(rq.gw)) ELSE {}
@@ -504,7 +527,7 @@ FailHere == /\ InjectFail /\ Busy /\ CanFail(Dirty) /\ Abort("injected")
             /\ UNCHANGED <<ctr, meta, engine, onto, everUsed, fresh, gone, ixn, keyOf, stim, nrestart>>
 Restart(n) == /\ ~Busy /\ stim.st = "none" /\ nrestart < MaxRestart /\ nreq < MaxReq
               /\ nrestart' = nrestart + 1 /\ nreq' = nreq + 1
-              /\ last' = [res |-> "ok", why |-> "restart", ret |-> <<>>, n |-> n]
+              /\ last' = [res |-> "ok", why |-> "restart", ret |-> <<>>, n |-> n, amb |-> FALSE]
               /\ UNCHANGED <<ctr, meta, engine, onto, everUsed, fresh, gone, ixn, keyOf, stim, rq>>
 
 Step == \/ CValidate \/ CExpand \/ CSplit \/ CRoute \/ CFreeOverwrite \/ CFreeAssign \/ CFreeMeta
